@@ -130,6 +130,31 @@ CLAIMED = {
          "Trusted: TLC, strace (EPERM injected for fchown/fchmod; some runs as 'nobody'). -S suffixes longer than the bound are handled "
          "by a named predicate, not enumerated.",
          "§4 C19"),
+ "C13": ("List-of-records TLA+ model of lzma_index (Index.tla / IndexOps.tla / IndexBig.tla with exact 63-bit limb arithmetic) and a "
+         "transcription of file_info_decode() (FileInfo.tla) checked by TLC against contract modules; TLC-generated op histories with "
+         "predicted getters/iterations/locate results replayed into the real API; file-info decoder runs validated by TraceFileInfo",
+         "TLC checks 9 index invariants (getters = list model, iteration visits each Stream/Block once in order in 4 modes, locate = unique "
+         "non-empty Block, failed ops change nothing, limits) and for the file-info decoder: seek <= file size, position agreement, "
+         "result = concatenation of per-Stream indexes, termination, for read sizes 1/7/40/whole/mixed incl. damaged files; each of 4 "
+         "switchable bugs violates its invariant. 4.8k / 29.6k generated plans (random walks over limit-crossing value classes, BFS, every "
+         "iterator transition, volume walks crossing 512 Records / 2^k Streams, half with allocation failures) are replayed comparing ALL "
+         "getters, full iterations and locate at boundaries after every call; ~120 / 625 real multi-Stream files are decoded by the "
+         "file-info decoder (every call validated), Blocks decoded at the offsets given, xz --list compared.",
+         "Trusted: TLC, the ctypes drivers, the real encoder for test files. index_hash.c and AVL rotations are not modelled (rotations are "
+         "exercised by volume replay only).",
+         "§4 C13"),
+ "C17": ("TLA+ model of xz's per-file life cycle as a sequence of system calls with failures, signals, SIGKILL and file swaps "
+         "(XzFilePair.tla) checked by TLC against data-safety invariants; strace-recorded executions of the real xz under injected "
+         "faults/signals/kills validated by TraceXzFilePair including the final file-system state",
+         "TLC checks DataSafe (source absent => complete, closed, synced target) in every reachable state - which covers SIGKILL at any "
+         "instant - plus FailureKeepsSource, FailureCleansUp, NoJunkLeft, ExitZeroMeansDone, KeepNeverRemoves, NoOverwrite, "
+         "AbortDiesBySignal... for 96 option configurations with one fault + one signal (0.39M states; thorough 11.5M + two faults); 8 "
+         "broken model copies each violate an invariant. 1196 / 6870 real xz runs (15 / 30 modes x every relevant syscall k x {error, "
+         "EINTR, signal INT/TERM/HUP/PIPE, SIGKILL, short count, file swap}) are traced; each syscall is bound to one action with its "
+         "arguments, and the content-checked final FS state must be the model's.",
+         "Trusted: TLC, strace injection, the LD_PRELOAD shim for short counts. Durability is fsync ordering, not power loss; stdin input, "
+         "poll/EAGAIN and --files0 are not driven.",
+         "§4 C17"),
 }
 NA_REASON = "check not built yet in this round (planned: see DESIGN.md §4); no claim is made"
 READY_FILE = os.path.join(V, "lib", "ready.txt")   # ids whose checks have been integrated (green + mutants confirmed)
